@@ -148,7 +148,10 @@ func policyMenu() map[string]*networkv1.NetworkPolicy {
 		"in-ports-only":  np("ns1", "in-ports-only", sel("app", "web"), tIn, []networkv1.NetworkPolicyIngressRule{{Ports: []networkv1.NetworkPolicyPort{port(corev1.ProtocolTCP, 80)}}}, nil),
 		"in-ns-and-pod":  np("ns1", "in-ns-and-pod", sel("app", "web"), tIn, []networkv1.NetworkPolicyIngressRule{{From: []networkv1.NetworkPolicyPeer{{NamespaceSelector: sel("team", "b"), PodSelector: sel("role", "client")}}}}, nil),
 		"in-allow-all":   np("ns1", "in-allow-all", sel("app", "web"), tIn, []networkv1.NetworkPolicyIngressRule{{}}, nil),
-		"eg-implicit":    np("ns1", "eg-implicit", sel("app", "db"), nil, nil, []networkv1.NetworkPolicyEgressRule{{To: []networkv1.NetworkPolicyPeer{peerPod("app", "web")}}}),
+		// wider versions of two shapes under the SAME object name: going from the wide to the narrow version only removes set members
+		"in-ipblock@wide": np("ns1", "in-ipblock", sel("app", "web"), tIn, []networkv1.NetworkPolicyIngressRule{{From: []networkv1.NetworkPolicyPeer{peerBlock("10.9.0.0/16", "10.9.1.0/24", "10.9.0.5/32"), peerBlock("172.16.0.0/16")}, Ports: []networkv1.NetworkPolicyPort{port(corev1.ProtocolTCP, 80), port(corev1.ProtocolUDP, 53)}}}, nil),
+		"eg-ipblock@wide": np("ns1", "eg-ipblock", sel("app", "db"), tEg, nil, []networkv1.NetworkPolicyEgressRule{{To: []networkv1.NetworkPolicyPeer{peerBlock("10.9.0.0/16", "10.9.1.0/24", "10.9.2.7/32", "10.9.0.5/32"), peerBlock("172.16.0.0/16")}}}),
+		"eg-implicit":     np("ns1", "eg-implicit", sel("app", "db"), nil, nil, []networkv1.NetworkPolicyEgressRule{{To: []networkv1.NetworkPolicyPeer{peerPod("app", "web")}}}),
 	}
 }
 
